@@ -33,6 +33,7 @@ type (
 
 		height     uint32
 		lastHash   crypto.Uint256
+		timestamp  uint64
 		validators []dbft.PublicKey
 	}
 )
@@ -86,6 +87,13 @@ func (n *simNode) Run(ctx context.Context) {
 	n.d.Start(0)
 
 	for {
+		// Once a block is accepted dBFT stops until it is told to go on: it is
+		// the caller's duty to start the next height (the ledger state was
+		// already updated by ProcessBlock).
+		for n.d.BlockSent() {
+			n.d.Reset(n.timestamp)
+		}
+
 		select {
 		case <-ctx.Done():
 			n.log.Info("context cancelled")
@@ -187,6 +195,7 @@ func (n *simNode) ProcessBlock(b dbft.Block[crypto.Uint256]) error {
 
 	n.height = b.Index()
 	n.lastHash = b.Hash()
+	n.timestamp = n.d.Timestamp
 	return nil
 }
 
